@@ -56,6 +56,7 @@ def parseTzData? (s : String) : Option TzData :=
   | 'i' :: r => (String.ofList r).toInt?.map .int
   | ['n'] => some .noneVal
   | ['b'] => some .bad
+  | ['r'] => some .raises
   | _ => none
 
 def parseEntries? (s : String) : Option (List (Option Token × TzData)) :=
@@ -116,6 +117,7 @@ def showTzData : TzData → String
   | .int n => s!"i{n}"
   | .noneVal => "n"
   | .bad => "b"
+  | .raises => "r"
 
 def showDescr : TzDescr → String
   | .naive => "naive"
@@ -184,6 +186,7 @@ def handle (op : String) (args : List String) : Option String :=
         let s' := if tzs == "-" then [] else s
         (match strNames s' t with
          | .ok (a, b) => s!"ok {assignFold a b n}"
+         | .error .ValueError => "err ParserError"     -- inside parse()'s `try: _build_tzaware … except ValueError` (950345d)
          | .error e => "err " ++ e.name)
       | _, _, _ => "bad-args")
   | "parser.localfinal", [n0, n1, name, utcz] =>
